@@ -247,6 +247,9 @@ Proof. exact (conj (proj1 conf_blanks_fixed) (proj1 (proj2 conf_blanks_fixed))).
 Print Assumptions C05_conf_blanks_fixed.
 
 (* ---- open defects of the implementation, reproduced by the model (witnesses) ---- *)
+(* the following three witnesses are about the positions / receiver the full pass recorded BEFORE the repairs
+   00fa4f2, 26ae34e, 027fb6a: given such a record the rename still does what they say; the full pass no longer
+   produces such records (the correspondence runs of the decl_split / iface_decl / this_receiver streams pass) *)
 (* D-C05-3 declaration whose name is not on the line of its return type *)
 Example C05_declaration_on_second_line_refuted :
   exec1 (String.append "  void" (String.append nl "  old() { }")) [(xpos 1 2 5, "fresh")] =
